@@ -7,6 +7,7 @@ import rvgen
 import impl as implmod
 
 PROP = "C13"
+CONSTS = ['ops', 'asm', 'toy', 'mem']          # constant tables of the models this property depends on
 RULE = ("API histories for single-cycle, five-stage and TOY simulations: any number of earlier loads (well-formed texts and texts "
         "failing at every pass), then a final load, then step/run interleavings with extra calls after done; programs incl. empty, "
         "faulting, exiting via ecall, falling off the end, jumping outside; random cache configurations; deep snapshot after every "
